@@ -461,10 +461,13 @@ func runUFCase(i int, schema *graphql.Schema) *ufResult {
 	if isMutation {
 		typ = "mutate"
 	}
+	wsCtx, wsCancel := context.WithCancel(ctx)
+	defer wsCancel()
+	sock.end.cancel = wsCancel
 	if guard("ServeJSONSocket", wsAct, func() {
 		pending := "p" // MakeCtx does not learn which request it serves: it panics for the first computation after p was sent
 		var pSent int32
-		conn := graphql.CreateConnection(ctx, sock, schema, graphql.WithMinRerunInterval(time.Millisecond),
+		conn := graphql.CreateConnection(wsCtx, sock, schema, graphql.WithMinRerunInterval(time.Millisecond),
 			graphql.WithExecutionLogger(ufExecLogger{}), graphql.WithSubscriptionLogger(ufSubLogger{}),
 			graphql.WithMakeCtx(func(ctx context.Context) context.Context {
 				if atomic.LoadInt32(&pSent) == 1 && pending != "" {
@@ -535,6 +538,9 @@ func runUFCase(i int, schema *graphql.Schema) *ufResult {
 		sock.mu.Unlock()
 		if strings.Contains(raw, secretMarker) {
 			res.WSBroken = append(res.WSBroken, "panic details reached the websocket client")
+		}
+		if n := sock.end.excessReads(); n > 0 {
+			res.WSBroken = append(res.WSBroken, fmt.Sprintf("the read loop kept reading after a permanent non-close read error (%d reads)", n))
 		}
 	}) {
 		res.Outcomes = append(res.Outcomes, "ws:done")
